@@ -1,5 +1,5 @@
 ENGINES = [
- {"name": "vsim", "path": "vsim/", "serves_properties": ["C14"],
+ {"name": "vsim", "path": "vsim/", "serves_properties": ["C14", "C15"],
   "kind_free_text": "deterministic simulator written for this task: seeded PRNG per run, simulated wall/monotonic clock, real tmpfs "
                     "file system behind seams that count, fail, tear and crash every call, fork-per-run driver with watchdogs, "
                     "delta-debugging shrinker, replay files; engines/ hold one workload+oracle per property, models/ the reference models"},
@@ -11,7 +11,6 @@ def fill(check, pending):
     pending.update({
      "C08": "engine not built yet in this commit (planned: DESIGN.md section 3/C08); not claimed until it is",
      "C13": "engine not built yet in this commit (planned: DESIGN.md section 3/C13); not claimed until it is",
-     "C15": "engine not built yet in this commit (planned: DESIGN.md section 3/C15); not claimed until it is",
      "C16": "engine not built yet in this commit (planned: DESIGN.md section 3/C16); not claimed until it is",
      "C17": "engine not built yet in this commit (planned: DESIGN.md section 3/C17); not claimed until it is",
     })
@@ -25,3 +24,13 @@ def fill(check, pending):
           "semantics; PYTHONHASHSEED pinned to 0. Sub-second clock phases and auto-tick go beyond the whole-second clock of the "
           "property's quantifier and form a separate run class.",
           "deterministic simulation: seeded histories + fault injection vs reference model", "DESIGN.md 3/C14")
+    check("C15", "fault_enumeration",
+          "Every construct runs in a forked process over a real tmpfs module directory. For the final construct of each seeded "
+          "history the engine enumerates ALL crash points of the module-writing path (each seam call k x before/after/mid-write, "
+          "death = os._exit inside the call), checks the module path after each death (no file | complete previous | complete new) "
+          "and at every seam point as an outside observer, then requires a fresh process to load and render per the staleness "
+          "rules; plus failing/short/degraded system calls with the process surviving, and 2-8 processes in seeded lock step. "
+          "Staleness rules (missing / older / magic / reuse unchanged / module_writer contract) are checked on every construct.",
+          "Crash granularity = the file-system calls Mako itself makes (importlib's bytecode writes are not crash points); histories "
+          "are sampled, crash points per sampled history are exhaustive; power loss (unsynced data) out of scope.",
+          "deterministic simulation: crash-point enumeration + fault injection + lock-step process schedules", "DESIGN.md 3/C15")
